@@ -12,7 +12,7 @@ directory modes with --keep-dir + --keep-permission; empty directories only with
 Model: Model/ExtractRun.v op `roundtrip` = tree_of (extract_all (create_from_tree order tree) empty_dir) with
 the walk order read back from the archive.  Directory and symbolic-link mtimes are NOT checked: extract never
 restores them (and creating children bumps a directory's mtime anyway); the property promises files' mtime."""
-import hashlib, os, random, shutil, stat
+import hashlib, os, random, shutil, stat, subprocess
 from vlib.flow import Check
 from vlib import cli, core
 
@@ -335,6 +335,105 @@ def histories(c, tier, seed):
     c.correspondence_py("extract", cases, outs, orc)
 
 
+UNPRIV = ["setpriv", "--reuid=65534", "--regid=65534", "--clear-groups"]
+
+
+def unprivileged_histories(c, rnd, n):
+    """create as root (owner root, modes 0600 / 0755 / 0640 / 04755 …), extract with --keep-permission as an UNPRIVILEGED user
+    (setpriv to nobody): chown cannot succeed there, the mode bits must be restored all the same and the exit status must
+    be 0 (fix 01b5387d: a failing chown skipped the chmod and both results were dropped — invisible to every run as root).
+    Also the other direction of the property for such a user: create AND extract as nobody.  Implementation-side oracle
+    only (Model/Fs.v has no owners).  Known finding keepperm-readonly-dir is replayed here."""
+    if shutil.which("setpriv") is None or os.geteuid() != 0:
+        c.notes.append("unprivileged histories skipped (needs root and setpriv)")
+        return
+    runs = 0
+    with cli.Sandbox("C02u") as sb:
+        os.chmod(sb.root, 0o777)
+        pna = cli.pna_path()
+        def as_nobody(args, cwd):
+            p = subprocess.run(UNPRIV + [pna] + args, cwd=cwd, stdout=subprocess.PIPE, stderr=subprocess.PIPE, timeout=120,
+                               env=dict(os.environ, HOME=cwd, TMPDIR=cwd))
+            return p.returncode, p.stderr.decode("utf-8", "replace")[-300:]
+        for i in range(n):
+            d = sb.path("u%d" % i)
+            os.makedirs(os.path.join(d, "t", "sub"))
+            os.chmod(d, 0o777)
+            modes = {}
+            for j, rel in enumerate(["t/a", "t/b.sh", "t/sub/c", "t/sub/d"]):
+                with open(os.path.join(d, rel), "wb") as f:
+                    f.write(bytes(rnd.getrandbits(8) for _ in range(rnd.randint(0, 200))))
+                modes[rel] = rnd.choice([0o600, 0o755, 0o640, 0o444, 0o700, 0o664, 0o4755, 0o2750])
+            by_nobody = i % 2 == 1
+            opts = rnd.choice([[], ["--solid"], ["--store"], ["--keep-dir"]])
+            if by_nobody:
+                subprocess.run(["chown", "-R", "65534:65534", os.path.join(d, "t")], check=True)
+            for rel, m in modes.items():          # after the chown: giving a file away clears its setuid / setgid bits
+                os.chmod(os.path.join(d, rel), m)
+            if by_nobody:
+                rc1, err1 = as_nobody(["--quiet", "create", "a.pna", "-r", "t", "--keep-permission"] + opts, d)
+                # setuid / setgid bits survive a chown to another user only partly: restrict to what nobody can set itself
+            else:
+                r = cli.run_pna(["--quiet", "create", "a.pna", "-r", "t", "--keep-permission"] + opts, cwd=d, timeout=120)
+                rc1, err1 = r["rc"], r["err"].decode("utf-8", "replace")[-300:]
+                os.chmod(os.path.join(d, "a.pna"), 0o644)
+            rc2, err2 = as_nobody(["--quiet", "extract", "a.pna", "--out-dir", "out", "--keep-permission"], d) if rc1 == 0 else (None, "")
+            runs += 2
+            hist = "pna create a.pna -r t --keep-permission %s (as %s; modes %s) ; pna extract a.pna --out-dir out --keep-permission (as nobody)" % (
+                " ".join(opts), "nobody" if by_nobody else "root", {k: oct(v) for k, v in modes.items()})
+            msgs = []
+            if rc1 != 0:
+                msgs.append("create fails (rc %s): %s" % (rc1, err1))
+            elif rc2 != 0:
+                msgs.append("extract as an unprivileged user fails (rc %s): %s" % (rc2, err2))
+            else:
+                for rel, m in modes.items():
+                    q = os.path.join(d, "out", rel)
+                    if not os.path.exists(q):
+                        msgs.append("%s is missing after extraction" % rel)
+                        continue
+                    got = stat.S_IMODE(os.lstat(q).st_mode)
+                    # an unprivileged chmod keeps setuid only on files it owns and clears setgid for foreign groups: compare the
+                    # rwx bits always, the special bits when the extracting user wrote the archive's owner too
+                    want = m if by_nobody else m & 0o777
+                    got_c = got if by_nobody else got & 0o777
+                    if by_nobody:
+                        want, got_c = want & 0o5777, got_c & 0o5777
+                    if got_c != want:
+                        msgs.append("mode of %s is %o after extract --keep-permission as an unprivileged user, archived %o" % (rel, got, m))
+            for mm in msgs[:3]:
+                c.violations.append(("oracle", mm, hist, True))
+        # known finding: a read-only directory with --keep-dir --keep-permission as an unprivileged user
+        d = sb.path("ro")
+        os.makedirs(os.path.join(d, "t", "ro"))
+        os.chmod(d, 0o777)
+        with open(os.path.join(d, "t", "ro", "a"), "w") as f:
+            f.write("a")
+        os.chmod(os.path.join(d, "t", "ro"), 0o555)
+        subprocess.run(["chown", "-R", "65534:65534", os.path.join(d, "t")], check=True)
+        rc1, _ = as_nobody(["--quiet", "create", "a.pna", "-r", "t", "--keep-dir", "--keep-permission"], d)
+        rc2, err2 = as_nobody(["--quiet", "extract", "a.pna", "--out-dir", "o", "--keep-permission"], d)
+        runs += 2
+        ok = rc1 == 0 and rc2 == 0 and os.path.exists(os.path.join(d, "o", "t", "ro", "a"))
+        if not ok:
+            what = ("`pna create a.pna -r t --keep-dir --keep-permission` then `pna extract a.pna --out-dir o --keep-permission` as an "
+                    "unprivileged user on a tree with a read-only directory (mode 555) holding a file: the directory's mode is applied as "
+                    "soon as the directory entry is extracted, the file beneath it then cannot be created (PermissionDenied, exit 1); as "
+                    "root the same archive extracts completely")
+            listed = [f for f in core.load_findings("C02") if f["id"] == "keepperm-readonly-dir"]
+            if listed:
+                print("KNOWN-FINDING: property=C02 %s (keepperm-readonly-dir)" % what)
+            else:
+                c.violations.append(("oracle", "extract --keep-permission as an unprivileged user fails on a read-only directory: " + err2,
+                                     what, True))
+        else:
+            c.notes.append("known finding keepperm-readonly-dir no longer reproduces (extract rc %s): remove it from known_findings.txt" % rc2)
+        subprocess.run(["chmod", "-R", "u+rwx", d], check=False)
+        subprocess.run(["chown", "-R", "0:0", sb.root], check=False)
+    c.cov["evaluations"] += runs
+    c.hist["runs as an unprivileged user"] = runs
+
+
 def run(tier, seed, replay=None):
     c = Check("C02", tier, seed)
     c.rule = ("histories = generated tree x option vector (pairwise-covering over {compression, cipher+kdf, solid, split, transport, "
@@ -345,5 +444,6 @@ def run(tier, seed, replay=None):
                      "the walk order of the `ignore` crate is taken from the archive (oracle permutation)"]
     c.proofs()
     histories(c, tier, seed)
+    unprivileged_histories(c, random.Random(seed + 77), 6 if tier == "quick" else 60)
     return c.finish("proof", ["Coq 8.16.1 kernel and VM", "ExtrOcamlBasic extraction + modelrun/driver.ml", "harness dump",
                               "vlib/cli.py snapshots", "Model/Fs.v as a description of the file system calls"])
